@@ -275,11 +275,20 @@ class Chain(object):
             self.bc = BlockChain(parent_hash=label[0], unlocked_block_storage={})
         self.seen_ops = []
 
+        self.one_by_one = None       # set to (kmax, zero_is_none) to hand operations over singly and log the states
+        self.mid = []
+
         def glue(chain, ops):
             # what a network client does: fetch the block of every header and hand its txs over
             self.seen_ops.append(list(ops))
-            self.wallet.w.got_ops_callback(
-                [(op, hdr, i, [self.wallet.world.txs[t] for t in sorted(self.cont.get(hdr.bid, ()))]) for op, hdr, i in ops])
+            real = [(op, hdr, i, [self.wallet.world.txs[t] for t in sorted(self.cont.get(hdr.bid, ()))]) for op, hdr, i in ops]
+            self.mid = []
+            if self.one_by_one is None:
+                self.wallet.w.got_ops_callback(real)
+            else:
+                for r in real:
+                    self.wallet.w.got_ops_callback([r])
+                    self.mid.append(self.wallet.project(*self.one_by_one))
         self._glue = glue        # BlockChain keeps callbacks in a WeakSet
         self.bc.add_change_callback(glue)
 
@@ -327,7 +336,12 @@ def run_acts(world, base, par, wt, cont, acts, kmax, feed, label=None, zero_is_n
             extra = {}
             if k == "D":
                 if ch is None:
-                    w.ops([(o[0], o[1], o[2] + base) for o in a["ops"]], cont)
+                    # one operation per call: the state after each of them is compared too
+                    mid = []
+                    for o in a["ops"]:
+                        w.ops([(o[0], o[1], o[2] + base)], cont)
+                        mid.append(w.project(kmax, zero_is_none))
+                    extra = {"mid": mid}
                 else:
                     rep = ch.deliver(sorted(a["B"]))
                     if rep["chain"] != list(a["chain"]):
